@@ -153,6 +153,7 @@ Fixpoint isize2 (i : item2) : nat :=
   | VEnv2 _ _ _ oa _ => S (fold_right (fun i n => isize2 i + n) 0 oa)
   | Brk2 _ _ _ b _ => S (fold_right (fun i n => isize2 i + n) 0 b)
   | Abs2 => 1
+  | Vba2 _ _ _ _ => 1
   end.
 Definition lsize2 (l : list item2) := fold_right (fun i n => isize2 i + n) 0 l.
 Lemma isize_pos2 i : 1 <= isize2 i. Proof. destruct i; cbn; lia. Qed.
@@ -604,7 +605,7 @@ Section Sim.
     assert (ENa : f_en_envs (ps_f aps) = f_en_envs (ps_f ps)) by apply en_envs_adelta.
     destruct (a_kind spc) as [sp|o c opt sp|ch sp full|d] eqn:AK.
     - (* a mandatory argument: a braced group or a single token *)
-      destruct a as [ws cs|ws b tr|ws name post margs| | | | |ws chars sargs| | | |]; try discriminate.
+      destruct a as [ws cs|ws b tr|ws name post margs| | | | |ws chars sargs| | | | |]; try discriminate.
       + (* a single character *)
         destruct cs as [|c [|? ?]]; try discriminate.
         apply andb_true_iff in OKA. destruct OKA as [OKA IN].
@@ -708,7 +709,7 @@ Section Sim.
     - (* a delimited argument *)
       destruct o as [|oc' [|? ?]]; try (destruct a; discriminate); try (destruct a; destruct opt; discriminate).
       destruct c as [|cc' [|? ?]]; try (destruct a; discriminate); try (destruct a; destruct opt; discriminate).
-      destruct a as [| | | | | | | | | |ws oc cc b tr|]; try discriminate; try (destruct opt; discriminate).
+      destruct a as [| | | | | | | | | |ws oc cc b tr| |]; try discriminate; try (destruct opt; discriminate).
       + (* written *)
         assert (OKA' : N.eqb oc oc' && N.eqb cc cc' && delim_ok oc cc && (sp || is_nil ws) && ws_ok ws && ws_ok tr
                        && ok_items2 cx aps [oc; cc] b (tr ++ cc :: fa) = true) by (destruct opt; exact OKA).
@@ -748,7 +749,7 @@ Section Sim.
         * rewrite ENa in AB. apply (absent_no_err pa oc'). apply (peek_absent cx ps s pa fa oc' SD SK SPO AB).
     - (* a marker character *)
       destruct ch as [|ch [|? ?]]; try (destruct a; discriminate).
-      destruct a as [ws cs| | | | | | | | | | |]; try discriminate.
+      destruct a as [ws cs| | | | | | | | | | | |]; try discriminate.
       + (* written *)
         destruct cs as [|c [|? ?]]; try discriminate.
         apply andb_true_iff in OKA. destruct OKA as [OKA WA].
@@ -776,7 +777,29 @@ Section Sim.
           rewrite (rule_tchars_absent s cx 0 aps ch sp full pa PA). cbn [parse_content].
           unfold ilen2. cbn [unparse_item2 length]. rewrite Nat.add_0_r. reflexivity.
         * rewrite ENa in AB. apply (absent_no_err pa ch). apply (peek_absent cx ps s pa fa ch SD SK SPC AB).
-    - destruct a; discriminate.
+    - (* a verbatim argument *)
+      destruct a as [| | | | | | | | | | | |ws od cd text]; try discriminate.
+      apply andb_true_iff in OKA. destruct OKA as [OKA SC].
+      apply andb_true_iff in OKA. destruct OKA as [OKA VD].
+      apply andb_true_iff in OKA. destruct OKA as [OKA O92]. apply negb_true_iff in O92.
+      apply andb_true_iff in OKA. destruct OKA as [WA SPO]. apply negb_true_iff in SPO.
+      destruct (vdelims d od) as [[o' c']|] eqn:VDE; [|discriminate].
+      apply andb_true_iff in VD. destruct VD as [E1 E2]. apply N.eqb_eq in E1. apply N.eqb_eq in E2. subst o' c'.
+      destruct (verb_scan od cd (text ++ cd :: fa) 1 0) as [sk|] eqn:SCE; [|discriminate].
+      apply Nat.eqb_eq in SC. subst sk.
+      assert (SK' : skipn pa s = ws ++ od :: text ++ cd :: fa).
+      { cbn [unparse_item2] in SK. rewrite <- !app_assoc in SK. cbn [app] in SK. rewrite <- !app_assoc in SK. exact SK. }
+      split; [|apply (peek_no_err ps pa ws od _ SD WA SPO O92 SK')].
+      pose proof (rule_tverb s cx 0 aps d pa ws od cd text fa SK' (proj1 (ws_ok_split _ WA)) SPO VDE SCE) as G.
+      unfold arg_fuel. cbn [is_abs item_ws2 node_of2]. unfold ilen2. cbn [unparse_item2]. rewrite app_length. cbn [length].
+      rewrite app_length. cbn [length].
+      replace (8 * (length ws + S (length text + 1))) with (S (S (8 * (length ws + S (length text + 1)) - 2))) by lia.
+      rewrite (rule_tstdarg_verb s cx).
+      rewrite (lift _ _ _ _ G); [|discriminate|lia].
+      cbn [parse_content].
+      replace (pa + length ws + 1 + length text + 1) with (S (S (pa + length ws) + length text)) by lia.
+      replace (pa + (length ws + S (length text + 1))) with (S (S (pa + length ws) + length text)) by lia.
+      reflexivity.
   Qed.
 
   (** ** the arguments of a call *)
@@ -792,7 +815,7 @@ Section Sim.
   Lemma ok_arg_len ps spc a fa : ok_arg2 cx ps spc a fa = true -> is_abs a = false -> 1 <= ilen2 a.
   Proof.
     unfold ok_arg2. intros H NA.
-    destruct a as [ws cs|ws b tr|ws name post margs| | | | |ws chars sargs| | |ws oc cc b tr|]; try discriminate NA;
+    destruct a as [ws cs|ws b tr|ws name post margs| | | | |ws chars sargs| | |ws oc cc b tr| |vw od cd vt]; try discriminate NA;
       try (destruct (a_kind spc) as [?|[|? [|? ?]] [|? [|? ?]] [|] ?|[|? [|? ?]] ? ?|?]; discriminate H).
     - destruct (a_kind spc) as [?|[|? [|? ?]] [|? [|? ?]] [|] ?|[|? [|? ?]] ? ?|?]; try discriminate H;
         (destruct cs as [|c [|? ?]]; try discriminate H; unfold ilen2; cbn [unparse_item2]; rewrite app_length; cbn; lia).
@@ -801,6 +824,7 @@ Section Sim.
     - destruct (a_kind spc) as [?|[|? [|? ?]] [|? [|? ?]] [|] ?|[|? [|? ?]] ? ?|?]; try discriminate H.
       destruct chars; [discriminate H|]. rewrite ilen_spc2. cbn [length]. lia.
     - rewrite ilen_brk2. lia.
+    - unfold ilen2. cbn [unparse_item2]. rewrite app_length. cbn [length]. lia.
   Qed.
 
   Lemma lift_pc n n' t v p : parse_content false (R n t) = Ok v p -> n <= n' -> parse_content false (R n' t) = Ok v p.
@@ -851,7 +875,7 @@ Section Sim.
     intros IH i ex cps ps o st pos fol k r SZ F OK NR OKI SK H.
     pose proof F as [SD _]. pose proof (std_view_of cx ps SD) as V.
     destruct i as [ws cs|ws b tr|ws name post args|ws mk b tr|ws text post|ws mid|ws bws name args b tr ews
-                   |ws chars args|ws name post dc text|ws bws name oarg text|ws oc cc b tr|]; cycle 4.
+                   |ws chars args|ws name post dc text|ws bws name oarg text|ws oc cc b tr| |vw od cd vt]; cycle 4.
     - (* comment *)
       cbn [ok_item2] in OKI. apply andb_true_iff in OKI. destruct OKI as [OKI PO].
       apply andb_true_iff in OKI. destruct OKI as [W NT]. apply negb_true_iff in NT.
@@ -1112,10 +1136,10 @@ Section Sim.
                       end
                  else @nil str = [] /\ fst on = [] /\ pt = pa)).
       { destruct oarg as [|a [|a2 oarg']];
-          [| |destruct a as [| | | | | | | | | |[|? ?] ? ? ? ?|]; discriminate OO].
+          [| |destruct a as [| | | | | | | | | |[|? ?] ? ? ? ?| |]; discriminate OO].
         - destruct optarg; [discriminate|]. unfold on, pt. cbn [unparse_items2 flat_map length fst snd].
           repeat split; lia.
-        - destruct a as [| | | | | | | | | |bw oc cc b tr|]; try discriminate OO.
+        - destruct a as [| | | | | | | | | |bw oc cc b tr| |]; try discriminate OO.
           + (* written *)
             destruct bw; [|discriminate].
             apply andb_true_iff in OO. destruct OO as [OO OKB].
@@ -1205,6 +1229,7 @@ Section Sim.
         exact H.
     - (* a delimited argument is not an item *) discriminate.
     - (* an absent argument is not an item *) discriminate.
+    - (* a verbatim argument is not an item *) discriminate.
     - (* text *)
       cbn [ok_item2] in OKI. apply andb_true_iff in OKI. destruct OKI as [OKI IN].
       apply andb_true_iff in OKI. destruct OKI as [W NE]. destruct cs as [|c cs]; [discriminate|].
